@@ -21,9 +21,9 @@ CHECKS['C01'] = dict(
    text='theorems for all strings: c01_accept (every string whose whitespace-stripped form is a rendering of the documented univariate grammar parses to dense_coeffs of its terms, for every arithmetic instance and Unicode classification), c01_dense_nth/length (like powers summed in source order, missing powers zero, coefficient k at position k), c01_eval_sum, c01_meaning (R: value of the string at every point), c01_spacing; model tied to the code by grammar-directed strings (all spellings, Unicode letters and whitespace) compared bit for bit',
    note=COMMON_NOTE, ref='DESIGN.md §5 C01')
 CHECKS['C05'] = dict(
-   technique='Coq proof (Simpson 1/3+3/8 composite exact for cubics for every n>=2, trapezoid exact for linear, Romberg exact-if-Ok and never panics for every cap/tolerance on a panic-aware model; degree-4 error bound) + bit-for-bit correspondence + exact oracle for the error bound on degree 4..8',
-   text='14 theorems: exactness of definite_integral for every cubic, interval and n>=2 (even/odd/3) and of the one-segment trapezoid for linear integrands; Romberg returns the exact integral whenever it returns for degree<=3, converges for cap>=3, and never panics for ANY cap and tolerance and any arithmetic instance (checked table indices, checked power); the h^4/80 error bound proved for degree 4 (tight at n=3), oracle-checked for degree 5..8',
-   note=COMMON_NOTE + '; Simpson error bound for degree 5..8 is measured by the oracle only (c05_simpson_error_partial)', ref='DESIGN.md §5 C05')
+   technique='Coq proof with Coquelicot (composite Simpson 1/3+3/8 error bound |b-a| h^4 max|f\'\'\'\'|/80 for every C4 integrand and every n>=2; exact for cubics; trapezoid exact for linear; Romberg exact-if-Ok and never panics for every cap/tolerance on a panic-aware model) + bit-for-bit correspondence + exact oracle',
+   text='16 theorems, none partial: c05_simpson_error (for every integrand with four derivatives, every interval and every n >= 2 incl. odd n with the spliced 3/8 panel: |result - integral| <= |b-a| h^4 max|f\'\'\'\'| / 80) and its polynomial corollary for every degree; exactness of definite_integral for every cubic, interval and n>=2 (even/odd/3) and of the one-segment trapezoid for linear integrands; Romberg returns the exact integral whenever it returns for degree<=3, converges for cap>=3, and never panics for ANY cap and tolerance and any arithmetic instance (checked table indices, checked power); the bound is tight at n=3',
+   note=COMMON_NOTE, ref='DESIGN.md §5 C05')
 CHECKS['C14'] = dict(
    technique='Coq proof of the full invariant (Q^T Q = I, Q H Q^T = A, zeros below the subdiagonal) through every Householder step of the functional-matrix model + bit-for-bit correspondence + exact-rational residual oracle',
    text='8 theorems in exact arithmetic for every n and every real matrix: reflector facts (tau v^T v = 2, symmetric, involutive, maps x to +-|x| e1), one-step invariant preservation including the zero-norm skip, c14_main (orthogonal similarity to Hessenberg form), trace and Frobenius norm preserved, n<=2 unchanged, non-square rejected; float instance agrees bit for bit with the Rust code on dense/sparse/scaled/zero-subcolumn matrices up to 10x10',
@@ -73,7 +73,7 @@ CHECKS['C06'] = dict(
    note=COMMON_NOTE + '; one known finding (F-C06-LOOSE-TOL: coarse tolerance exits before the fixed 1e-4 residual gate can pass)', ref='DESIGN.md §5 C06')
 CHECKS['C07'] = dict(
    technique='Coq proof (Newton step and relative-tolerance facts on every Ok, Taylor-Lagrange second-order residual bound for polynomial targets, no panic and at most max(cap,1) iterations, exact-root acceptance, one-step monotonicity) + bit-for-bit correspondence + exact oracle',
-   text='7 theorems: c07_sound and c07_sound_simple (Ok x => x = x\' - g x\'/g\' x\', |x - x\'|*100 < tol*|x| or g x = 0, and g x = g\'\'(xi)/2 (x-x\')^2 hence the stated residual bound), c07_total (all instances), c07_zero_root, c07_stale_100_repaired, c07_monotone_partial (one step towards the extreme root under convexity; convergence within budget is decided by the oracle)',
+   text='9 theorems: c07_converges_to_extreme_root (exact arithmetic: started right of the largest root R > 0 of c*prod(x - r_i) with all roots real, with an explicit budget, an x is returned with R <= x and (x-R)*100 <= (degree-1)*tol*x), c07_rdprod_is_derivative, c07_sound and c07_sound_simple (Ok x => x = x\' - g x\'/g\' x\', |x - x\'|*100 < tol*|x| or g x = 0, and g x = g\'\'(xi)/2 (x-x\')^2 hence the stated residual bound), c07_total (all instances), c07_zero_root, c07_stale_100_repaired, c07_monotone_partial (one step under convexity); the mirror case left of the smallest root, extreme roots <= 0 and float effects are decided by the oracle',
    note=COMMON_NOTE + '; one known finding (F-C07-OVERFLOW: coefficients >= 2^1000)', ref='DESIGN.md §5 C07')
 CHECKS['C17'] = dict(
    technique='Coq proof (exact {:.p} formatting of binary64 in integer arithmetic with its half-to-even rounding contract; string-level round trips of Display through the parser models for default and every precision) + exact text correspondence with Rust formatting + read-back oracle through the real parsers',
